@@ -1,7 +1,11 @@
 ---------------------------- MODULE Trace_Shape5 ----------------------------
 (* Trace validation for C05: one event per (accepted program, pub fn):       *)
 (*   [prog, fn, ptys, ret, single_array, outcome, input_gates, noutputs,     *)
-(*    valid_ssa, valid_reg, eval_ok, decode_ok, reg_same_shape]              *)
+(*    valid_ssa, valid_reg, eval_ok, decode_ok, reg_same_shape,              *)
+(*    agrees_with_annotated]                                                 *)
+(* agrees_with_annotated: a literal-suffix-erased variant whose typed AST    *)
+(* has the shape of the fully annotated program (validated by C01 against    *)
+(* GarbleSem) computes the same outputs as that program.                     *)
 (* The oracle (Layout.SizeOf over the projected definitions) gives the       *)
 (* party sizes and the number of output bits the types demand.               *)
 EXTENDS Layout, TLC, Json, IOUtils
@@ -21,6 +25,7 @@ Judge(ev) ==
          \o (IF ev.eval_ok THEN <<>> ELSE <<"eval_fails">>)
          \o (IF ev.decode_ok THEN <<>> ELSE <<"output_not_decodable">>)
          \o (IF ev.reg_same_shape THEN <<>> ELSE <<"register_form_differs_in_shape">>)
+         \o (IF ev.agrees_with_annotated THEN <<>> ELSE <<"differs_from_annotated_program">>)
 Init == l = 1
 Next == /\ l <= Len(Rec)
         /\ LET bad == Judge(Rec[l]) IN bad # <<>> => PrintT(<<"MISMATCH", l, ToJson(bad)>>)
